@@ -22,7 +22,7 @@ theorem patch_tail (b2 buf : Bytes) (h60 : 60 ≤ buf.length) (hl2 : b2.length =
     (hd2 : ∀ x, 60 ≤ x → b2.drop x = buf.drop x) (count headerLen : Nat) (out : Bytes)
     (h : (let b := splice b2 56 (leN 4 count)
           let b := splice b 50 [0, 0]
-          if headerLen > b.length then (Except.error Err.panic : Except Err Bytes)
+          if headerLen > b.length then (Except.error Err.err : Except Err Bytes)
           else if headerLen % 2 ≠ 0 then .error .err
           else .ok (splice b 50 (leN 2 ((0 - sum16 (b.take headerLen)).toNat)))) = .ok out) :
     out.length = buf.length ∧ ∀ x, 60 ≤ x → out.drop x = buf.drop x := by
